@@ -72,6 +72,12 @@ func propC09(r *kernel.Run) {
 		w.RW = newAead(r, "registration")
 	}
 	opts := w.Opts(cfg.opts()...)
+	// the certificate lifetime is an option of root rotation; an application may well pass it there only
+	eopts := opts
+	if tp.Draw(2) == 0 {
+		eopts = w.Opts(nodeenrollment.WithNotBeforeClockSkew(cfg.nb), nodeenrollment.WithNotAfterClockSkew(cfg.na))
+		r.Count("cfg.lifetime_option_passed_to_root_rotation_only", 1)
+	}
 	nNodes := tp.Range(1, 3)
 	type cnode struct {
 		name   string
@@ -135,7 +141,7 @@ func propC09(r *kernel.Run) {
 		req, _ := BuildFetch(sp)
 		if viaWrapper {
 			var err error
-			resp, err = registration.FetchNodeCredentials(w.Ctx, w.Storage, req, opts...)
+			resp, err = registration.FetchNodeCredentials(w.Ctx, w.Storage, req, eopts...)
 			if err != nil || len(resp.EncryptedNodeCredentials) == 0 {
 				r.Violate("reenroll", "fetch-failed", "wrapper-flow fetch: %v", err)
 			}
@@ -145,7 +151,7 @@ func propC09(r *kernel.Run) {
 			if err != nil {
 				r.HarnessErr("encrypt: %v", err)
 			}
-			rr, err := rotation.RotateNodeCredentials(w.Ctx, w.Storage, &types.RotateNodeCredentialsRequest{CertificatePublicKeyPkix: n.creds.CertificatePublicKeyPkix, EncryptedFetchNodeCredentialsRequest: payload}, opts...)
+			rr, err := rotation.RotateNodeCredentials(w.Ctx, w.Storage, &types.RotateNodeCredentialsRequest{CertificatePublicKeyPkix: n.creds.CertificatePublicKeyPkix, EncryptedFetchNodeCredentialsRequest: payload}, eopts...)
 			if err != nil {
 				r.Violate("reenroll", "node-rotation-failed", "honest node credential rotation failed: %v", err)
 			}
@@ -155,11 +161,11 @@ func propC09(r *kernel.Run) {
 			}
 			r.Count("ops.rotate_node_credentials", 1)
 		} else {
-			if _, err := registration.AuthorizeNode(w.Ctx, w.Storage, req, opts...); err != nil {
+			if _, err := registration.AuthorizeNode(w.Ctx, w.Storage, req, eopts...); err != nil {
 				r.Violate("reenroll", "authorize-failed", "%v", err)
 			}
 			var err error
-			resp, err = registration.FetchNodeCredentials(w.Ctx, w.Storage, req, opts...)
+			resp, err = registration.FetchNodeCredentials(w.Ctx, w.Storage, req, eopts...)
 			if err != nil || len(resp.EncryptedNodeCredentials) == 0 {
 				r.Violate("reenroll", "fetch-failed", "%v", err)
 			}
